@@ -410,6 +410,14 @@ Proof. exact cert_example. Qed.
 Example C12_ex_moments : forall k, (k <= 1)%nat ->
   Rabs (moment (big_rule 0 0 (BigZ.zero :: nil) (BigZ.two :: nil)) k - leg_moment k) <= IZR 0 / IZR 1.
 Proof. exact cert_example_moments. Qed.
+(* the same two hypotheses on a real rule: binary64 3-point Gauss-Legendre, degree 5, 1e-13 *)
+Example C12_ex_cert_gl3 : cert_check_big 106 52 5 1 (10 ^ 13) gl3_xs gl3_ws = true.
+Proof. exact cert_example_gl3. Qed.
+Example C12_ex_moments_gl3 : forall k, (k <= 5)%nat ->
+  Rabs (moment (big_rule 106 52 gl3_xs gl3_ws) k - leg_moment k) <= IZR 1 / IZR (10 ^ 13).
+Proof. exact cert_example_gl3_moments. Qed.
+Example C12_ex_range_gl3 : range_check_big 106 gl3_xs gl3_ws = true.
+Proof. exact range_example_gl3. Qed.
 Example C12_ex_accept_step : accept (fun _ => (0, 0)) 0 1 1 = true.
 Proof. exact accept_zero_example. Qed.
 
